@@ -16,6 +16,7 @@ func init() {
 			"PV-CONST renderOptions fields are written by flag parsing only",
 			"PV-GO concurrent opens: own slot, joined before use",
 			"PV-CONST --limit default is non-positive; line_format result is a copy of the template buffer; PV-CMP comparators",
+			"PV-ALIAS no unsafe.String",
 		},
 		NotDecided: []string{"terminal behaviour", "isatty / NO_COLOR detection"},
 		Rules: func(r *Run) {
@@ -30,6 +31,7 @@ func init() {
 			ruleLimitDefaultUnlimited(r)
 			ruleTemplateBinding(r) // the rendered message is the text the template produced for that entry
 			ruleComparatorsNoSubtraction(r, []string{cmdPkg, enginePkg, metricPkg, dockerlogPkg})
+			ruleNoUnsafeStrings(r, []string{enginePkg, dockerlogPkg, cmdPkg})
 		},
 	})
 }
